@@ -108,7 +108,7 @@ def run(res):
                         'HCM rule = case list of the FKM non-linear guideline (differs from the 1986 flow chart only after a closed hysteresis that touches the largest load so far)']
     res.cov['rule'] = ('one-piece signals: exhaustive over {0..3} (quick: len<=6; thorough: {0..4} len<=7) + random integer signals over 2-5 values with plateaus / constant '
                        'stretches / leading-trailing plateaus, length 2..40; non-trivial = at least 2 closed cycles and at least one tie among consecutive ranges '
-                       '(counted distinct by (detector, signal)); plus a near-tie float stream: samples k/2^30 with ranges 1e-9 apart (exact in doubles) fed as floats, compared as integers')
+                       '(counted distinct by (detector, signal)); plus a near-tie float stream: samples k/2^30 with ranges 1e-9 apart (exact in doubles) fed as floats, compared as integers; plus an extreme-magnitude stream: integer signals fed as K*2^-600 and K*2^500')
     common.standard_proof_stage(res, 'C02', extra_targets=['theories/Rainflow/SpecEqb.vo'])
 
     sigs = []
@@ -130,10 +130,19 @@ def run(res):
     n_near = 700 if quick else 8000
     near = [rf.near_tie(rng, tie_signal(rng, 24)) for _ in range(n_near)]
     res.cov['near_tie_float_signals'] = len(near)
+    # extreme-magnitude stream: the same integer signals fed as the exact doubles K * 2^-600 and K * 2^500 (every difference exact;
+    # a product of two differences under- / overflows): "every finite real-valued signal"
+    n_mag = 120 if quick else 1500
+    mags = []
+    for _ in range(n_mag):
+        t = tie_signal(rng, 16)
+        mags += [(t, 2 ** 600), (t, 2.0 ** -500)]
+    res.cov['extreme_magnitude_float_signals'] = len(mags)
     model_terms, spec_terms, meta = [], [], []
     nontriv = set()
-    for s in sigs + near:
-        denom = rf.DENOM if any(abs(x) >= rf.DENOM // 2 for x in s) else 1
+    for s, denom in [(s, None) for s in sigs + near] + mags:
+        if denom is None:
+            denom = rf.DENOM if any(abs(x) >= rf.DENOM // 2 for x in s) else 1
         for k in rf.KINDS:
             try:
                 o = rf.impl_run(k, [s], denom=denom)
@@ -142,7 +151,7 @@ def run(res):
                 continue
             model_terms.append(rf.case_term(k, [s], o))
             spec_terms.append(spec_term(k, s, o))
-            meta.append((k, s, o))
+            meta.append((k, s, o, denom))
             bad = direct_checks(k, s, o)
             if bad:
                 res.violation(bad, detector=k, signal=s, cycles=o[0], residuals=o[1], residual_index=o[2])
@@ -151,7 +160,7 @@ def run(res):
                 nontriv.add((k, tuple(s)))
     badm, logm = common.coq_compare('C02m', rf.REQ, model_terms)
     res.oblige('correspondence model = implementation on %d one-piece runs' % len(model_terms), not badm,
-               'disagreeing: %s\n%s' % ([meta[i][:2] for i in badm[:5]], logm[-1200:]))
+               'disagreeing: %s\n%s' % ([meta[i][:2] + (float(meta[i][3]),) for i in badm[:5]], logm[-1200:]))
     bads, uneval, logs = common.coq_compare3('C02s', REQ, spec_terms)
     res.oblige('implementation output = verified specification (fp_spec / hcm_spec) on %d runs' % len(spec_terms), not bads and not uneval,
                'disagreeing: %s; not evaluated: %d\n%s' % ([meta[i][:2] for i in bads[:5]], len(uneval), logs[-1200:]))
@@ -160,10 +169,13 @@ def run(res):
              'F': 'FKM detector differs from the HCM rule on the interior reversals'}
     seen = set()
     for i in bads:
-        k, s, o = meta[i]
+        k, s, o, dn0 = meta[i]
         if k in seen:
             continue
         seen.add(k)
+        if dn0 not in (1, rf.DENOM):      # extreme-magnitude stream: report as it is (the shrinker re-derives the denominator from the values)
+            res.violation(names[k], detector=k, signal=s, signal_is_integer_image_of_floats_divided_by=float(dn0), cycles=o[0], residuals=o[1])
+            continue
         s2 = shrink_spec(k, s)
         dn = rf.DENOM if any(abs(x) >= rf.DENOM // 2 for x in s2) else 1
         o2 = rf.impl_run(k, [s2], denom=dn)
@@ -171,15 +183,17 @@ def run(res):
     res.add_cases(len(model_terms), nontrivial=len(nontriv))
     res.cov['oracle_comparisons'] = len(spec_terms)
     res.cov['oracle_disagreements'] = len(bads)
-    for k, s, o in meta[-3:]:
+    for k, s, o, _dn in meta[-3:]:
         res.sample({'detector': k, 'signal': s, 'cycles': o[0], 'residuals': o[1]})
 
 
-def spec_fails(kind, s):
+def spec_fails(kind, s, denom=None):
     if len(s) < 2:
         return False
     try:
-        o = rf.impl_run(kind, [s], denom=rf.DENOM if any(abs(x) >= rf.DENOM // 2 for x in s) else 1)
+        if denom is None:
+            denom = rf.DENOM if any(abs(x) >= rf.DENOM // 2 for x in s) else 1
+        o = rf.impl_run(kind, [s], denom=denom)
     except Exception:
         return True
     if direct_checks(kind, s, o):
@@ -207,7 +221,12 @@ def shrink_spec(kind, s, budget=25):
 def replay(res, rp):
     v = rp.get('violation', {})
     if 'signal' in v and 'detector' in v:
-        bad = spec_fails(v['detector'], v['signal'])
+        dn = v.get('signal_is_integer_image_of_floats_divided_by')
+        if dn is not None and dn not in (1, rf.DENOM):
+            dn = int(dn) if dn >= 1 else float(dn)
+        else:
+            dn = None
+        bad = spec_fails(v['detector'], v['signal'], dn)
         print('replay: property fails on the input' if bad else 'replay: property holds on the input')
         res.add_cases(1, 0)
         res.oblige('replayed input satisfies the property', not bad)
